@@ -93,6 +93,20 @@ def parseDCall : List String → Option DCall
   | ["getState", h] => h.toNat?.map .getState
   | ["setDescrBody", h, b] => do pure (.setDescrBody (← h.toNat?) (← b.toNat?))
   | ["setStateBody", h, b] => do pure (.setStateBody (← h.toNat?) (← b.toNat?))
+  | "writeEntity" :: h :: p :: k :: ver :: b :: mds :: "single" :: rest => do
+      let d : Descr := ⟨← h.toNat?, ← optNat p, ← kindOf k, ← ver.toNat?, ← b.toNat?, ← optNat mds⟩
+      match rest with
+      | [] => pure (.writeEntity d none none)
+      | [sv, sb] => pure (.writeEntity d (some (← sv.toNat?, ← sb.toNat?)) none)
+      | _ => none
+  | "writeEntity" :: h :: p :: k :: ver :: b :: mds :: "multi" :: rest => do
+      let d : Descr := ⟨← h.toNat?, ← optNat p, ← kindOf k, ← ver.toNat?, ← b.toNat?, ← optNat mds⟩
+      let cs ← rest.mapM (fun w => match w.splitOn "," with
+        | [ch, dh, dv, sv, cb, a, bv, uv, bt, ut] => do
+            pure (CState.mk (← ch.toNat?) (← dh.toNat?) (← dv.toNat?) (← sv.toNat?) (← cb.toNat?) (← assocOf a)
+                    (← optNat bv) (← optNat uv) (← optNat bt) (← optNat ut))
+        | _ => none)
+      pure (.writeEntity d none (some cs))
   | _ => none
 
 def finish (st : St) (catchE raiseE : Bool) : St × String :=
